@@ -5,7 +5,7 @@
   Everything that is a *choice made in the source text* is a field of `Facts` and is regenerated from
   the repository by extract/cmd/c13 (Generated/C13.lean):
     * the keys of the default table `stdlib.Symbols` (host file selection),
-    * for the packages os, log, fmt, flag: every exported name with the expression it is bound to,
+    * for the packages os, log, fmt, flag, log/slog: every exported name with the expression it is bound to,
     * the functions of the whole default table whose results mention `log.Logger` (go/types),
     * the functions and methods of stdlib/restricted.go with what they call,
     * every `p["Name"] = …` of interp/use.go `fixStdlib` with its guards and free identifiers,
@@ -71,19 +71,45 @@ structure LoggerSrc where
   results : List String
   deriving DecidableEq, Repr, Inhabited
 
-/-- a `p["Name"] = …` assignment of `fixStdlib` -/
+/-- the forms of an assigned expression of `fixStdlib` whose meaning the model reads (recognised by the extractor):
+      method  : `recv.MethodByName("m")`                                            the method `m` of the local `recv`
+      constFn : `reflect.MakeFunc(T, func(…) []reflect.Value { return []reflect.Value{x} })`   a function that returns the local `x`
+      remap   : `reflect.ValueOf(func(a, b) R { if b == A { b = B } …; return fn(a, b) })`     the host's `fn` with a parameter
+                value `A` replaced by `B`
+      expr    : anything else — only the free identifiers are known -/
+inductive RebindShape where
+  | expr
+  | method (recv m : String)
+  | constFn (result : String)
+  | remap (fn : String) (maps : List (Ident × Ident))
+  deriving DecidableEq, Repr, Inhabited
+
+/-- a `p["Name"] = …` assignment of `fixStdlib` (the body of `for _, name := range []string{…} { p[name] = … }` is
+    emitted once per element) -/
 structure Rebind where
   pkg : String
   name : String
   guards : List String      -- enclosing conditions (other than `binPkg[pkg] != nil`)
   free : List Ident         -- free identifiers / selector chains of the assigned expression
+  shape : RebindShape := .expr
   deriving DecidableEq, Repr, Inhabited
 
-/-- a local of `fixStdlib` (`l := log.New(stderr, …)`) with the free identifiers of everything
-    that defines or configures it -/
+/-- `name = expr` after the declaration of a local of `fixStdlib`, with the enclosing conditions -/
+structure LocalAssign where
+  guards : List String
+  expr : String
+  free : List Ident
+  deriving DecidableEq, Repr, Inhabited
+
+/-- a local of `fixStdlib` (`c := flag.NewFlagSet(prog, …)`): the free identifiers of everything that defines,
+    configures or reassigns it, the section (`binPkg` key) it is declared in, the defining expression as written and
+    the later assignments -/
 structure LocalDef where
   name : String
   free : List Ident
+  pkg : String := ""
+  expr : String := ""
+  assigns : List LocalAssign := []
   deriving DecidableEq, Repr, Inhabited
 
 /-- `i.Use(set.Symbols)` in cmd/yaegi/run.go -/
@@ -221,38 +247,140 @@ def hostLoggerMethod (m : String) : Outcome :=
 
 def findDecl (F : Facts) (n : String) : Option Decl := F.decls.find? (fun d => d.name == n)
 
+/-! #### loggers -/
+
+/-- what a logger value is -/
+inductive LoggerKind where
+  | wrapper (type : String)   -- a value of a type of restricted.go (`logLogger`): its methods are the `Decl`s `type.m`
+  | host                      -- the host's own `*log.Logger`
+  | unknown
+  deriving DecidableEq, Repr, Inhabited
+
+/-- `logger.m(…)` -/
+def loggerMethodOutcome (F : Facts) (k : LoggerKind) (m : String) : Outcome :=
+  match k with
+  | .wrapper t => match findDecl F (t ++ "." ++ m) with
+    | some md => bodyOutcome md.callees
+    | none => .unknown
+  | .host => hostLoggerMethod m
+  | .unknown => .unknown
+
+/-- the logger a binding of a symbol table makes: a function of restricted.go returns its declared result type, a
+    host function listed by the go/types scan returns the host's `*log.Logger` -/
+def bindLogger (F : Facts) (pkg name : String) (b : Bind) : LoggerKind :=
+  match b with
+  | .loc d => match findDecl F d with
+    | some dd => match dd.results with
+      | [t] => .wrapper t
+      | _ => .unknown
+    | none => .unknown
+  | .host _ _ => if F.loggerReturning.any (fun s => s.pkg == pkg && s.name == name) then .host else .unknown
+  | _ => .unknown
+
+def findLocal (F : Facts) (n : String) : Option LocalDef := F.locals.find? (fun l => l.name == n)
+
+/-- the conditions on the locals of `fixStdlib`, as the extractor renders them -/
+def evalLocalGuard (F : Facts) (c : Cfg) (g : String) : Option Bool :=
+  if g == "interp.unrestricted || !newLogger.IsValid()" then some (c.unrestricted || (lookupTable F "log" "New").isNone)
+  else if g == "interp.unrestricted" then some c.unrestricted
+  else if g == "!interp.unrestricted" then some (!c.unrestricted)
+  else none
+
+def loggerCallExpr : String :=
+  "newLogger.Call([]reflect.Value{reflect.ValueOf(stderr), reflect.ValueOf(\"\"), reflect.ValueOf(log.LstdFlags)})[0]"
+
+/-- the logger held by a local of `fixStdlib`, read from the extracted definitions:
+      l := log.New(stderr, "", log.LstdFlags)                                   (before 77e1d98) the host's logger
+      newLogger := p["New"]; if G { newLogger = reflect.ValueOf(log.New) }; l := newLogger.Call(…)[0]
+                                                                                the logger made by the script's own
+                                                                                log.New (table entry), by the host's when G -/
+def localLogger (F : Facts) (c : Cfg) (x : String) : LoggerKind :=
+  match findLocal F x with
+  | some lx =>
+    if lx.assigns != [] then .unknown
+    else if lx.expr == "log.New(stderr, \"\", log.LstdFlags)" then .host
+    else if lx.expr == loggerCallExpr then
+      match findLocal F "newLogger" with
+      | some nl =>
+        if nl.expr == "p[\"New\"]" && nl.pkg == lx.pkg && (F.rebinds.all fun r => !(r.pkg == nl.pkg && r.name == "New")) then
+          let fromTable := match lookupTable F nl.pkg "New" with
+            | some b => bindLogger F nl.pkg "New" b
+            | none => .unknown
+          match nl.assigns with
+          | [] => fromTable
+          | [a] =>
+            if a.expr == "reflect.ValueOf(log.New)" then
+              match a.guards.mapM (evalLocalGuard F c) with
+              | some gs => if gs.all id then .host else fromTable
+              | none => .unknown
+            else .unknown
+          | _ => .unknown
+        else .unknown
+      | none => .unknown
+    else .unknown
+  | none => .unknown
+
+/-- what a call of an override of `fixStdlib` does -/
+def rebindOutcome (F : Facts) (c : Cfg) (r : Rebind) : Outcome :=
+  match r.shape with
+  | .expr => bodyOutcome (closure F r.free)
+  | .method recv m => loggerMethodOutcome F (localLogger F c recv) m
+  | .constFn _ => .returns
+  | .remap _ _ => .returns
+
 /-- `pkg.name(…)` -/
 def callOutcome (F : Facts) (c : Cfg) (pkg name : String) : Outcome :=
   match effective F c pkg name with
-  | .override r => bodyOutcome (closure F r.free)
+  | .override r => rebindOutcome F c r
   | .table (.host p n) => hostFnOutcome p n
   | .table (.loc d) => match findDecl F d with
     | some dd => bodyOutcome dd.callees
     | none => .unknown
   | _ => .unknown
 
+/-- the logger `pkg.name(…)` returns -/
+def loggerOf (F : Facts) (c : Cfg) (pkg name : String) : LoggerKind :=
+  match effective F c pkg name with
+  | .override r => match r.shape with
+    | .constFn x => localLogger F c x
+    | _ => .unknown
+  | .table b => bindLogger F pkg name b
+  | .absent => .unknown
+
 /-- `pkg.name(…).m(…)` where `pkg.name` returns a logger -/
 def methodOutcome (F : Facts) (c : Cfg) (pkg name m : String) : Outcome :=
-  match effective F c pkg name with
-  | .table (.loc d) => match findDecl F d with
-    | some dd => match dd.results with
-      | [t] => match findDecl F (t ++ "." ++ m) with
-        | some md => bodyOutcome md.callees
-        | none => .unknown
-      | _ => .unknown
-    | none => .unknown
-  | .table (.host _ _) =>
-    if F.loggerReturning.any (fun s => s.pkg == pkg && s.name == name) then hostLoggerMethod m else .unknown
-  | _ => .unknown
+  loggerMethodOutcome F (loggerOf F c pkg name) m
+
+/-! #### flag sets -/
 
 /-- the host's `flag.FlagSet` on a parse error, by error handling (documented behaviour of package flag) -/
 def hostFlagError (handling : String) : Outcome :=
   if handling == "ExitOnError" then .exits else if handling == "PanicOnError" then .panics else .returns
 
-/-- `flag.NewFlagSet("x", flag.<handling>).Parse(bad arguments)` -/
+/-- `if h == A { h = B }` … applied in order to the name of a constant -/
+def remapConst (maps : List (Ident × Ident)) (h : String) : String :=
+  maps.foldl (fun cur m => if m.1.last == cur then m.2.last else cur) h
+
+/-- `flag.NewFlagSet("x", flag.<handling>).Parse(bad arguments)`: the host's constructor, directly or with the error
+    handling remapped by the override of fixStdlib -/
 def flagSetOutcome (F : Facts) (c : Cfg) (handling : String) : Outcome :=
-  match effective F c "flag" "NewFlagSet", effective F c "flag" handling with
-  | .table (.host "flag" "NewFlagSet"), .table (.host "flag" h) => hostFlagError h
+  match effective F c "flag" handling with
+  | .table (.host "flag" h) =>
+    match effective F c "flag" "NewFlagSet" with
+    | .table (.host "flag" "NewFlagSet") => hostFlagError h
+    | .override r => match r.shape with
+      | .remap fn maps =>
+        if fn == "flag.NewFlagSet" && maps.all (fun m => m.1.root == "flag" && m.2.root == "flag") then hostFlagError (remapConst maps h)
+        else .unknown
+      | _ => .unknown
+    | _ => .unknown
+  | _ => .unknown
+
+/-- `fs.Init("x", flag.<handling>); fs.Parse(bad arguments)` for any `*flag.FlagSet` (a zero value, the result of
+    flag.NewFlagSet, flag.CommandLine): `Init` is a method of the host's type, no rebinding of a name reaches it -/
+def flagSetInitOutcome (F : Facts) (c : Cfg) (handling : String) : Outcome :=
+  match effective F c "flag" "FlagSet", effective F c "flag" handling with
+  | .table (.hostType "flag" "FlagSet"), .table (.host "flag" h) => hostFlagError h
   | _, _ => .unknown
 
 /-- a call a script can make to end the process -/
@@ -260,12 +388,14 @@ inductive ExitCall where
   | fn (pkg name : String)
   | method (pkg name m : String)
   | flagSet (handling : String)
+  | flagSetInit (handling : String)
   deriving DecidableEq, Repr, Inhabited
 
 def exitOutcome (F : Facts) (c : Cfg) : ExitCall → Outcome
   | .fn p n => callOutcome F c p n
   | .method p n m => methodOutcome F c p n m
   | .flagSet h => flagSetOutcome F c h
+  | .flagSetInit h => flagSetInitOutcome F c h
 
 /-! ### streams -/
 
@@ -290,6 +420,11 @@ def streamOfIds (ids : List Ident) : Stream :=
 def fmtPrint : List String := ["Print", "Printf", "Println"]
 def fmtScan : List String := ["Scan", "Scanf", "Scanln"]
 def logOut : List String := ["Print", "Printf", "Println", "Panic", "Panicf", "Panicln", "Fatal", "Fatalf", "Fatalln", "Output"]
+/-- package-level functions of log/slog that log through (or return, or derive a logger from) the default logger, which
+    until slog.SetDefault is the host's standard logger of package log -/
+def slogDefaultFns : List String :=
+  ["Debug", "DebugContext", "Info", "InfoContext", "Warn", "WarnContext", "Error", "ErrorContext", "Log", "LogAttrs",
+   "Default", "With"]
 def flagCmdLineFns : List String :=
   ["Arg", "Args", "Bool", "BoolFunc", "BoolVar", "Duration", "DurationVar", "Float64", "Float64Var", "Func", "Int",
    "Int64", "Int64Var", "IntVar", "Lookup", "NArg", "NFlag", "Parse", "Parsed", "PrintDefaults", "Set", "String",
@@ -307,6 +442,8 @@ def hostStream (pkg name : String) : Stream :=
   -- the host's flag.CommandLine: parses the host's os.Args, reports to the host's os.Stderr
   else if pkg == "flag" && name == "CommandLine" then .hostFlag
   else if pkg == "flag" && flagCmdLineFns.contains name then .hostFlag
+  -- the default logger of log/slog hands its records to the host's log.Default(), which writes to the host's os.Stderr
+  else if pkg == "slog" && slogDefaultFns.contains name then .hostStderr
   else .unknown
 
 /-- the stream / argument vector `pkg.name` reaches -/
@@ -326,6 +463,10 @@ def builtinStream (F : Facts) (b : String) : Stream :=
 /-- output of `pkg.name(…).Print(…)` for a logger source -/
 def loggerStream (F : Facts) (c : Cfg) (pkg name : String) : Stream :=
   match effective F c pkg name with
+  | .override r => match r.shape with
+    -- a function that returns a local of fixStdlib: the writer that local was created over
+    | .constFn x => if localLogger F c x == .unknown then .unknown else streamOfIds (closure F [⟨x, x, x⟩])
+    | _ => .unknown
   | .table (.host p n) =>
     -- the host's standard logger writes to the host's os.Stderr
     if F.loggerReturning.any (fun s => s.pkg == pkg && s.name == name) && p == "log" && n == "Default" then .hostStderr
@@ -385,8 +526,11 @@ structure IPath where
   base : String
   deriving DecidableEq, Repr, Inhabited
 
-/-- `if packageName := path.Base(ipath); path.Dir(ipath) == packageName { ipath = packageName }` -/
-def IPath.norm (p : IPath) : String := if p.dir == p.base then p.base else p.full
+/-- `if packageName := path.Base(ipath); path.Dir(ipath) == packageName && interp.binPkg[packageName] != nil { ipath = packageName }`
+    (since 444e842 only a binary package can be imported by the key of its exports, "fmt/fmt"; `import "x/x"` of a source
+    package stays "x/x") -/
+def IPath.norm (binPkg : List String) (p : IPath) : String :=
+  if p.dir == p.base && binPkg.contains p.base then p.base else p.full
 
 inductive ImportRes where
   | bin (path : String) (form : Form)     -- symbols of a binary package made visible
@@ -395,9 +539,10 @@ inductive ImportRes where
   deriving DecidableEq, Repr, Inhabited
 
 /-- gta.go `case importSpec`: binary package first, then source; `srcHas` = importSrc finds and loads
-    the package from the source tree (GOPATH / vendor / the source file system) -/
+    the package from the source tree (GOPATH / vendor / the source file system). `p` is the path after the rewriting
+    of a relative path (`./x`, `../x` stay relative — `relativePath` — and so never name a binary package) -/
 def importSpec (binPkg : List String) (srcHas : String → Bool) (form : Form) (p : IPath) : ImportRes :=
-  let ip := p.norm
+  let ip := p.norm binPkg
   if binPkg.contains ip then .bin ip form
   else if srcHas ip then .src ip form
   else .error ip
